@@ -20,6 +20,11 @@ def cases(tier):
                 cfg2 = {'scenario': 'adversarial', 'n': n, 'x': x, 'actions': ['VerifyOnly'],
                         'members': [{'m': m, 'cap': cap, 'rounds': ilog2(n * m), 'promises': [('sym' if j % 2 == pat else None) for j in range(m)], 'free_gens': True, 'ctx_elem': True}]}
                 out.append({'cfg': cfg2, 'kind': 'verifier', 'name': 'verifier n%d m%d c%d x%d promises at %s positions' % (n, m, cap, x, 'even' if pat == 0 else 'odd')})
+    # the commitment generators are a clone of an object that was already used once, with every field overwritten afterwards
+    for (n, m, cap, x) in [(8, 1, 1, 2), (4, 2, 2, 1)]:
+        cfg = {'scenario': 'adversarial', 'n': n, 'x': x,
+               'members': [{'m': m, 'cap': cap, 'rounds': ilog2(n * m), 'promises': ['sym'] * m, 'free_gens': True, 'gens_used_first': True, 'ctx_elem': True}], 'actions': ['VerifyOnly']}
+        out.append({'cfg': cfg, 'kind': 'verifier', 'name': 'verifier n%d m%d c%d x%d, generators cloned from a used object and overwritten' % (n, m, cap, x)})
     # equal commitments at two positions of one aggregate: each position still has its own promise, bound at its own position
     for (n, m, cap, x, dup) in [(8, 2, 2, 1, [[0, 1]]), (4, 4, 4, 2, [[0, 3]]), (4, 4, 4, 1, [[1, 2], [0, 3]])]:
         cfg = {'scenario': 'adversarial', 'n': n, 'x': x,
@@ -118,7 +123,7 @@ def analyse(ctx, case, run, S):
         for cname, lid, deps in stage:
             for dname, atom in sorted(deps.items()):
                 asserts, atoms = inj.query(('log', lid), {atom}, universe)
-                rd = dict({'n': n, 'x': x, 'm': m, 'cap': mc['cap'], 'datum': dname, 'rounds': rounds, 'challenge': cname}, **brd)
+                rd = dict({'n': n, 'x': x, 'm': m, 'cap': mc['cap'], 'datum': dname, 'rounds': rounds, 'challenge': cname, 'from_used': bool(mc.get('gens_used_first'))}, **brd)
                 ctx.solve(S, 'log-injective', '%s%s: challenge %s depends on %s' % (case['name'], tag, cname, dname), asserts, cfg=cfg,
                           key='C04:%s-not-bound' % dname.split(' ')[0].split('_')[0], pred='challenges_unchanged', detail=rd)
         # integer fields: bit length, extension degree, aggregation factor are absorbed as their own 8-byte little-endian encodings, in that order after the generators
